@@ -1,1 +1,558 @@
-pub fn main(_r: vcore::Report) -> ! { std::process::exit(2) }
+//! C08 - Newton-type iterations converge to the nearby root on regular problems.
+use bacon_sci::polynomial::Polynomial;
+use bacon_sci::roots::{muller_polynomial, newton, newton_polynomial, secant, steffensen};
+use nalgebra::{SMatrix, SVector};
+use num_complex::Complex;
+use serde::{Deserialize, Serialize};
+use std::cell::Cell;
+use vcore::num::EPS;
+use vcore::{json, Check, Outcome, Report, Tier, Value};
+
+type C = Complex<f64>;
+
+// ------------------------------------------------------------------ systems A(x-r) + c N(x-r)
+const MATS: [&str; 6] = ["identity", "ill-scaled-diagonal", "rotation-x-scale", "triangular", "symmetric-indefinite", "singular"];
+const NONLIN: [&str; 3] = ["affine", "square", "sin"];
+fn matrix(kind: usize, d: usize) -> Vec<Vec<f64>> {
+    let mut a = vec![vec![0.0; d]; d];
+    for i in 0..d {
+        for j in 0..d {
+            a[i][j] = match kind {
+                0 => (i == j) as u8 as f64,
+                1 => if i == j { 100f64.powf(if d == 1 { 0.5 } else { i as f64 / (d - 1) as f64 }) } else { 0.0 },
+                2 => 0.0,
+                3 => if i == j { 1.0 + 0.5 * i as f64 } else if j > i { 0.5 } else { 0.0 },
+                4 => if i == j { if i % 2 == 0 { 1.5 } else { -1.2 } } else { 0.3 },
+                _ => if i + 1 == d && d > 1 { 0.0 } else if d == 1 { 0.0 } else if i == j { 1.0 } else { 0.25 },
+            };
+        }
+    }
+    if kind == 2 {
+        // product of plane rotations times 2
+        for i in 0..d {
+            a[i][i] = 1.0;
+        }
+        for k in 0..d.saturating_sub(1) {
+            let (s, c) = (0.7 + 0.4 * k as f64).sin_cos();
+            for r in 0..d {
+                let (x, y) = (a[r][k], a[r][k + 1]);
+                a[r][k] = c * x - s * y;
+                a[r][k + 1] = s * x + c * y;
+            }
+        }
+        for r in a.iter_mut() {
+            for v in r.iter_mut() {
+                *v *= 2.0;
+            }
+        }
+    }
+    if kind == 5 && d > 1 {
+        // last row = first row: rank d-1
+        a[d - 1] = a[0].clone();
+    }
+    a
+}
+fn nl(kind: usize, u: f64) -> (f64, f64) {
+    match kind {
+        0 => (0.0, 0.0),
+        1 => (u * u, 2.0 * u),
+        _ => (u.sin(), u.cos()),
+    }
+}
+#[derive(Serialize, Deserialize, Clone, Debug)]
+pub struct SysPt {
+    pub method: String,
+    pub dim: usize,
+    pub mat: usize,
+    pub nonlin: usize,
+    pub c: f64,
+    pub root: usize,
+    /// start: 0 = origin; otherwise r + dist * direction (direction index: 0..dim axes, dim = diagonal)
+    pub start_dir: Option<usize>,
+    pub dist: f64,
+    pub tol: f64,
+    pub h: f64,
+    pub cap: usize,
+}
+fn root_vec(which: usize, d: usize) -> Vec<f64> {
+    (0..d)
+        .map(|i| match which {
+            0 => 0.0,
+            1 => [3.0, -2.0, 1.5, -0.5][i],
+            _ => [1000.0, -1000.0, 500.0, 250.0][i],
+        })
+        .collect()
+}
+struct SysOut {
+    res: Result<Result<Vec<f64>, String>, String>,
+    f_calls: u64,
+    j_calls: u64,
+}
+fn run_sys<const S: usize>(p: &SysPt) -> SysOut
+where
+    nalgebra::Const<S>: nalgebra::DimMin<nalgebra::Const<S>, Output = nalgebra::Const<S>>,
+{
+    let a = matrix(p.mat, S);
+    let r = root_vec(p.root, S);
+    let fc = Cell::new(0u64);
+    let jc = Cell::new(0u64);
+    let budget = 100_000u64;
+    let f = |x: &[f64]| -> SVector<f64, S> {
+        fc.set(fc.get() + 1);
+        if fc.get() > budget {
+            std::panic::panic_any(vcore::BUDGET);
+        }
+        let u: Vec<f64> = (0..S).map(|i| x[i] - r[i]).collect();
+        SVector::<f64, S>::from_fn(|i, _| (0..S).map(|j| a[i][j] * u[j]).sum::<f64>() + p.c * nl(p.nonlin, u[i]).0)
+    };
+    let jac = |x: &[f64]| -> SMatrix<f64, S, S> {
+        jc.set(jc.get() + 1);
+        let u: Vec<f64> = (0..S).map(|i| x[i] - r[i]).collect();
+        SMatrix::<f64, S, S>::from_fn(|i, j| a[i][j] + if i == j { p.c * nl(p.nonlin, u[i]).1 } else { 0.0 })
+    };
+    let start: Vec<f64> = match p.start_dir {
+        None => vec![0.0; S],
+        Some(dir) => (0..S).map(|i| r[i] + p.dist * if dir == S { 1.0 / (S as f64).sqrt() } else if dir == i { 1.0 } else { 0.0 }).collect(),
+    };
+    let res = vcore::guard(|| {
+        if p.method == "newton" {
+            newton::<f64, _, _, S>(&start, f, jac, p.tol, p.cap)
+        } else {
+            secant::<f64, _, S>(&start, f, p.h, p.tol, p.cap)
+        }
+        .map(|v| v.as_slice().to_vec())
+    });
+    SysOut { res, f_calls: fc.get(), j_calls: jc.get() }
+}
+pub struct Systems;
+impl Check for Systems {
+    type P = SysPt;
+    fn name(&self) -> &'static str {
+        "systems"
+    }
+    fn rule(&self) -> String {
+        "newton and secant on F(x) = A(x-r) + c N(x-r): dimension 1-4 x 6 matrices (one singular) x N in {0, square, sin} x c x root {0, (3,-2,..), (1e3,..)} x start {origin; r + d u for d in {0, 1e-2, 0.2}, u over the axes and the diagonal} x tolerance x finite-difference width x iteration cap; signature = (method, outcome class, matrix kind, start class)".into()
+    }
+    fn axes(&self, t: Tier) -> Value {
+        json!({"matrices": MATS, "nonlinearity": NONLIN, "c": [0.0, 0.1], "tol": t.pick(vec![1e-3, 1e-10], vec![1e-3, 1e-6, 1e-10]), "h": t.pick(vec![1e-4], vec![1e-2, 1e-4, 1e-6]), "cap": [1, 2, 50], "dist": [0.0, 1e-2, 0.2]})
+    }
+    fn points(&self, t: Tier) -> Vec<SysPt> {
+        let mut v = vec![];
+        for method in ["newton", "secant"] {
+            for dim in 1..=4 {
+                for mat in 0..6 {
+                    for nonlin in 0..3 {
+                        let c = if nonlin == 0 { 0.0 } else { 0.1 };
+                        for root in 0..3 {
+                            let mut starts: Vec<(Option<usize>, f64)> = vec![(None, 0.0), (Some(0), 0.0)];
+                            for dir in 0..=dim {
+                                for &dist in &[1e-2, 0.2] {
+                                    if t == Tier::Quick && dir != 0 && dir != dim {
+                                        continue;
+                                    }
+                                    starts.push((Some(dir), dist));
+                                }
+                            }
+                            for (start_dir, dist) in starts {
+                                for &tol in &t.pick(vec![1e-3, 1e-10], vec![1e-3, 1e-6, 1e-10]) {
+                                    for &h in &t.pick(vec![1e-4], vec![1e-2, 1e-4, 1e-6]) {
+                                        if method == "newton" && h != 1e-4 {
+                                            continue;
+                                        }
+                                        for &cap in &[1usize, 2, 50] {
+                                            if t == Tier::Quick && cap == 2 {
+                                                continue;
+                                            }
+                                            v.push(SysPt { method: method.to_string(), dim, mat, nonlin, c, root, start_dir, dist, tol, h, cap });
+                                        }
+                                    }
+                                }
+                            }
+                        }
+                    }
+                }
+            }
+        }
+        v
+    }
+    fn run(&self, p: &SysPt) -> Outcome {
+        let mut o = Outcome::new();
+        let out = match p.dim {
+            1 => run_sys::<1>(p),
+            2 => run_sys::<2>(p),
+            3 => run_sys::<3>(p),
+            _ => run_sys::<4>(p),
+        };
+        let subj = format!("roots::{}", p.method);
+        let d = p.dim;
+        let a = matrix(p.mat, d);
+        let r = root_vec(p.root, d);
+        let anorm = a.iter().map(|row| row.iter().map(|x| x.abs()).sum::<f64>()).fold(0.0, f64::max).max(1.0);
+        let rnorm = r.iter().fold(0.0f64, |m, x| m.max(x.abs()));
+        let singular = p.mat == 5;
+        let affine = p.nonlin == 0;
+        let start_class = match p.start_dir {
+            None => "origin",
+            Some(_) if p.dist == 0.0 => "on-root",
+            Some(_) => "near",
+        };
+        // the claim "Ok from this start" is made for regular problems from starts inside the convergence region:
+        // near starts always; the origin only for affine systems (or when the origin is the root)
+        let must_converge = !singular && p.cap >= 50 && (start_class != "origin" || affine || p.root == 0);
+        let ctx = || format!("{:?} [{} {}]", p, MATS[p.mat], NONLIN[p.nonlin]);
+        let class = match &out.res {
+            Err(m) if m == vcore::BUDGET => {
+                o.viol(&subj, "does-not-loop-beyond-its-cap", format!("{}: more than 100000 function calls", ctx()));
+                "budget"
+            }
+            Err(m) => {
+                o.viol(&subj, "never-panics", format!("{}: {}", ctx(), m));
+                "panic"
+            }
+            Ok(Err(e)) => {
+                if must_converge {
+                    o.viol(&subj, "ok-on-regular-problem", format!("{}: Err({})", ctx(), e));
+                }
+                "err"
+            }
+            Ok(Ok(x)) => {
+                if x.iter().any(|v| !v.is_finite()) {
+                    o.viol(&subj, "never-returns-nan", format!("{}: {:?}", ctx(), x));
+                    "nan"
+                } else if singular || (start_class == "origin" && !affine && p.root != 0) {
+                    // a singular system may have a whole line of roots, and a non-linear system started far away (the
+                    // origin) may legitimately converge to another root: an Ok must then be a root by its residual
+                    let u: Vec<f64> = (0..d).map(|i| x[i] - r[i]).collect();
+                    let res = (0..d).map(|i| ((0..d).map(|j| a[i][j] * u[j]).sum::<f64>() + p.c * nl(p.nonlin, u[i]).0).abs()).fold(0.0, f64::max);
+                    let umax = u.iter().fold(0.0f64, |m, x| m.max(x.abs()));
+                    // (no accuracy claim is made from a far start, only that the answer is a root to a few tolerances)
+                    if !(res <= 64.0 * p.tol * (anorm + 2.0 * p.c * umax) + 64.0 * EPS * (anorm + p.c * umax) * (rnorm + umax + 1.0)) {
+                        o.viol(&subj, "never-a-silently-wrong-point", format!("{}: Ok({:?}) with residual {:e}", ctx(), x, res));
+                    }
+                    if singular { "ok-singular" } else { "ok-far-start" }
+                } else {
+                    let err = (0..d).map(|i| (x[i] - r[i]).abs()).fold(0.0, f64::max);
+                    // conditioning floor: F is evaluated with rounding eps*|A|*|x|, which moves the root by that over sigma_min
+                    let bound = 8.0 * p.tol * rnorm.max(1.0) + 256.0 * EPS * anorm * (rnorm + 1.0) * 4.0;
+                    o.metric(&format!("{}-error/bound", p.method), err / bound);
+                    if !(err <= bound) {
+                        o.viol(&subj, "returns-the-nearby-root", format!("{}: Ok({:?}) is {:e} from the root {:?} (bound {:e})", ctx(), x, err, r, bound));
+                    }
+                    "ok"
+                }
+            }
+        };
+        let stencil = if p.method == "newton" { 1 } else { 2 * d as u64 + 2 };
+        if out.f_calls > (p.cap as u64 + 2) * stencil.max(1) || out.j_calls > p.cap as u64 + 2 {
+            o.viol(&subj, "does-not-loop-beyond-its-cap", format!("{}: {} function calls and {} Jacobian calls for a cap of {}", ctx(), out.f_calls, out.j_calls, p.cap));
+        }
+        o.sig = format!("{}|{}|{}|{}|cap{}", p.method, class, MATS[p.mat], start_class, p.cap);
+        o
+    }
+    fn required(&self, _t: Tier) -> Vec<&'static str> {
+        vec!["newton|ok|", "secant|ok|", "newton|err|singular", "secant|err|", "|ok|identity|origin", "|ok|ill-scaled-diagonal|on-root"]
+    }
+}
+
+// ------------------------------------------------------------------ polynomial Newton / Muller
+fn root_sets() -> Vec<Vec<C>> {
+    let c = |a: f64, b: f64| C::new(a, b);
+    vec![
+        vec![c(1.0, 0.0)],
+        vec![c(-2.0, 0.0), c(1.5, 0.0)],
+        vec![c(-1.0, 0.0), c(0.5, 0.0), c(2.5, 0.0)],
+        vec![c(0.0, 1.0), c(0.0, -1.0)],
+        vec![c(1.0, 1.0), c(1.0, -1.0), c(-1.5, 0.0)],
+        vec![c(-2.0, 0.0), c(-1.0, 0.0), c(0.0, 0.0), c(1.0, 0.0), c(2.0, 0.0)],
+        vec![c(2.0, 0.0), c(0.0, 2.0), c(-2.0, 0.0), c(0.0, -2.0)],
+        vec![c(0.5, 0.5), c(0.5, -0.5), c(-1.0, 1.5), c(-1.0, -1.5), c(2.0, 0.0), c(-2.5, 0.0)],
+        vec![c(-2.4, 0.0), c(-1.6, 0.0), c(-0.8, 0.0), c(0.0, 0.0), c(0.8, 0.0), c(1.6, 0.0), c(2.4, 0.0)],
+        vec![c(1.0, 0.3), c(-0.7, 1.1), c(0.2, -1.4)],
+        vec![c(2.0, 1.0), c(2.0, -1.0), c(-2.0, 1.0), c(-2.0, -1.0), c(0.0, 2.5), c(0.0, -2.5), c(1.0, 0.0), c(-1.0, 0.0)],
+        vec![c(0.9, 0.0), c(-0.9, 0.0), c(0.0, 0.9), c(0.0, -0.9), c(2.7, 0.0)],
+        // roots close to the origin: a start of tiny norm (the origin itself) is then a start near the root
+        vec![c(0.04, 0.0), c(1.0, 0.0), c(-1.2, 0.0)],
+        vec![c(0.03, 0.02), c(1.0, 1.0), c(-1.0, -0.5)],
+    ]
+}
+/// ascending coefficients of lead * prod (x - z_j)
+fn expand(roots: &[C], lead: f64) -> Vec<C> {
+    let mut c = vec![C::new(lead, 0.0)];
+    for z in roots {
+        let mut n = vec![C::new(0.0, 0.0); c.len() + 1];
+        for (k, ck) in c.iter().enumerate() {
+            n[k + 1] += ck;
+            n[k] -= ck * z;
+        }
+        c = n;
+    }
+    c
+}
+#[derive(Serialize, Deserialize, Clone, Debug)]
+pub struct PolyPt {
+    pub method: String,
+    pub set: usize,
+    pub which_root: usize,
+    /// start distance as a fraction of sep/(2 deg), direction index 0..4
+    pub frac: f64,
+    pub dir: usize,
+    pub tol: f64,
+}
+pub struct PolyNewton;
+impl Check for PolyNewton {
+    type P = PolyPt;
+    fn name(&self) -> &'static str {
+        "polynomial-newton-muller"
+    }
+    fn rule(&self) -> String {
+        "polynomials of degree 1-8 expanded from 14 separated real/complex root sets (two with a root close to the origin, started from the origin itself); newton_polynomial (real field for real roots of real polynomials, complex field otherwise) from starts at distance frac * sep/(2 deg) of each root in 4 directions (frac = 0: exactly on the root), muller_polynomial from horizontal, vertical and skew triples around the start; 3 tolerances; signature = (method, field, outcome, set)".into()
+    }
+    fn points(&self, t: Tier) -> Vec<PolyPt> {
+        let mut v = vec![];
+        for method in ["newton-real", "newton-complex", "muller-horizontal", "muller-vertical", "muller-skew"] {
+            for (set, roots) in root_sets().iter().enumerate() {
+                for which_root in 0..roots.len() {
+                    for &frac in &[0.0, 0.25, 0.8] {
+                        for dir in 0..5 {
+                            if frac == 0.0 && dir > 0 {
+                                continue;
+                            }
+                            if dir == 4 && frac != 0.8 {
+                                continue;
+                            }
+                            for &tol in &t.pick(vec![1e-4, 1e-12], vec![1e-4, 1e-8, 1e-12]) {
+                                v.push(PolyPt { method: method.to_string(), set, which_root, frac, dir, tol });
+                            }
+                        }
+                    }
+                }
+            }
+        }
+        v
+    }
+    fn run(&self, p: &PolyPt) -> Outcome {
+        let mut o = Outcome::new();
+        let sets = root_sets();
+        let roots = &sets[p.set];
+        let deg = roots.len();
+        let coeffs = expand(roots, 1.0);
+        let real_poly = coeffs.iter().all(|c| c.im.abs() <= 1e-13 * (1.0 + c.re.abs()));
+        let z = roots[p.which_root];
+        let sep = roots.iter().enumerate().filter(|(j, _)| *j != p.which_root).map(|(_, w)| (w - z).norm()).fold(10.0, f64::min);
+        let delta = p.frac * sep / (2.0 * deg as f64);
+        let dirs = [C::new(1.0, 0.0), C::new(0.0, 1.0), C::new(-0.6, -0.8), C::new(-1.0, 0.0)];
+        // direction 4: start exactly at the origin, when the origin lies within the admissible distance of the root
+        if p.dir == 4 && !(z.norm() <= delta && z.norm() > 0.0) {
+            o.sig = "origin-start|not-applicable".into();
+            return o;
+        }
+        let start = if p.dir == 4 { C::new(0.0, 0.0) } else { z + dirs[p.dir] * delta };
+        let scale = coeffs.iter().map(|c| c.norm()).fold(0.0, f64::max);
+        // conditioning of the root: perturbing the coefficients by eps moves it by eps*sum|c_k||z|^k / |p'(z)|
+        let dp: C = (0..deg).filter(|j| *j != p.which_root).map(|j| z - roots[j]).product();
+        let cond = coeffs.iter().enumerate().map(|(k, c)| c.norm() * z.norm().powi(k as i32)).sum::<f64>() / dp.norm().max(1e-300);
+        let floor = 64.0 * EPS * cond + 1e-300;
+        let bound = |r: f64| 8.0 * p.tol * r.max(1.0) + floor;
+        let ctx = || format!("{:?} roots {:?} start {}", p, roots, start);
+        let desc_c: Vec<C> = coeffs.iter().rev().cloned().collect();
+        let poly_c = Polynomial::<C>::from_slice(&desc_c);
+        let nearest = |x: C| roots.iter().map(|w| (w - x).norm()).fold(f64::INFINITY, f64::min);
+        let _ = scale;
+        let class: String;
+        if p.method == "newton-real" {
+            if !(real_poly && z.im == 0.0) {
+                o.sig = "newton-real|not-applicable".into();
+                return o;
+            }
+            let s_re = if p.dir == 4 { 0.0 } else if p.dir == 1 { z.re - delta } else if p.dir == 2 { z.re + 0.5 * delta } else { start.re };
+            let desc_r: Vec<f64> = desc_c.iter().map(|c| c.re).collect();
+            let poly_r = Polynomial::<f64>::from_slice(&desc_r);
+            match vcore::guard(|| newton_polynomial::<f64>(s_re, &poly_r, p.tol, 200)) {
+                Err(m) => {
+                    o.viol("roots::newton_polynomial", "never-panics", format!("{}: {}", ctx(), m));
+                    class = "panic".into();
+                }
+                Ok(Err(e)) => {
+                    o.viol("roots::newton_polynomial", "ok-near-a-simple-root", format!("{} (real start {}): Err({})", ctx(), s_re, e));
+                    class = "err".into();
+                }
+                Ok(Ok(x)) => {
+                    let err = (x - z.re).abs();
+                    o.metric("newton-real-error/bound", err / bound(z.norm()));
+                    if !(err <= bound(z.norm())) {
+                        o.viol("roots::newton_polynomial", "returns-that-root", format!("{} (real start {}): Ok({}) is {:e} from the root {} (bound {:e})", ctx(), s_re, x, err, z.re, bound(z.norm())));
+                    }
+                    class = "ok".into();
+                }
+            }
+        } else if p.method == "newton-complex" {
+            match vcore::guard(|| newton_polynomial::<C>(start, &poly_c, p.tol, 200)) {
+                Err(m) => {
+                    o.viol("roots::newton_polynomial", "never-panics", format!("{}: {}", ctx(), m));
+                    class = "panic".into();
+                }
+                Ok(Err(e)) => {
+                    o.viol("roots::newton_polynomial", "ok-near-a-simple-root", format!("{}: Err({})", ctx(), e));
+                    class = "err".into();
+                }
+                Ok(Ok(x)) => {
+                    let err = (x - z).norm();
+                    o.metric("newton-complex-error/bound", err / bound(z.norm()));
+                    if !(err <= bound(z.norm())) {
+                        o.viol("roots::newton_polynomial", "returns-that-root", format!("{}: Ok({}) is {:e} from the root {} (bound {:e})", ctx(), x, err, z, bound(z.norm())));
+                    }
+                    class = "ok".into();
+                }
+            }
+        } else {
+            // three distinct starting points around `start`
+            let hstep = (0.3 * sep / (2.0 * deg as f64)).max(1e-3);
+            let triple = match p.method.as_str() {
+                "muller-horizontal" => (start - hstep, start + hstep, start),
+                "muller-vertical" => (start, start + C::new(0.0, hstep), start - C::new(0.0, hstep)),
+                _ => (start + C::new(hstep, 0.5 * hstep), start + C::new(-0.5 * hstep, hstep), start - C::new(0.2 * hstep, hstep)),
+            };
+            match vcore::guard(|| muller_polynomial::<C>(triple, &poly_c, p.tol, 200)) {
+                Err(m) => {
+                    o.viol("roots::muller_polynomial", "never-panics", format!("{} triple {:?}: {}", ctx(), triple, m));
+                    class = "panic".into();
+                }
+                Ok(Err(e)) => {
+                    o.viol("roots::muller_polynomial", "returns-a-root", format!("{} triple {:?}: Err({})", ctx(), triple, e));
+                    class = "err".into();
+                }
+                Ok(Ok(x)) => {
+                    // Muller returns *a* root; its conditioning floor is taken as the worst over the roots
+                    let worst_floor = (0..deg)
+                        .map(|i| {
+                            let zi = roots[i];
+                            let d: C = (0..deg).filter(|j| *j != i).map(|j| zi - roots[j]).product();
+                            coeffs.iter().enumerate().map(|(k, c)| c.norm() * zi.norm().powi(k as i32)).sum::<f64>() / d.norm().max(1e-300)
+                        })
+                        .fold(0.0, f64::max)
+                        * 64.0
+                        * EPS;
+                    let b = 8.0 * p.tol * 3.0 + worst_floor;
+                    let err = nearest(x);
+                    o.metric("muller-error/bound", err / b);
+                    if !(x.re.is_finite() && x.im.is_finite() && err <= b) {
+                        o.viol("roots::muller_polynomial", "returns-a-root", format!("{} triple {:?}: Ok({}) is {:e} from the nearest root (bound {:e})", ctx(), triple, x, err, b));
+                    }
+                    class = "ok".into();
+                }
+            }
+        }
+        o.sig = format!("{}|{}|set{}|{}", p.method, class, p.set, if p.frac == 0.0 { "on-root" } else { "near" });
+        o
+    }
+}
+
+// ------------------------------------------------------------------ Steffensen
+thread_local! { static CALLS: Cell<u64> = Cell::new(0); }
+fn count() {
+    CALLS.with(|c| {
+        c.set(c.get() + 1);
+        if c.get() > 100_000 {
+            std::panic::panic_any(vcore::BUDGET);
+        }
+    })
+}
+fn g0(x: f64) -> f64 { count(); x.cos() }
+fn g1(x: f64) -> f64 { count(); (-x).exp() }
+fn g2(x: f64) -> f64 { count(); 0.5 * (x + 2.0 / x) }
+fn g3(x: f64) -> f64 { count(); 1.0 + 0.5 * x.sin() }
+fn g4(x: f64) -> f64 { count(); (x + 1.0).sqrt() }
+fn g5(x: f64) -> f64 { count(); 1.0 / (1.0 + x) }
+fn g6(x: f64) -> f64 { count(); 0.5 * x + 1.0 }
+fn g7(x: f64) -> f64 { count(); (x + 2.0).ln() }
+fn g8(x: f64) -> f64 { count(); x.tanh() * 0.5 + 0.3 }
+fn g9(x: f64) -> f64 { count(); x.atan() + 0.5 }
+const MAPS: [(&str, fn(f64) -> f64); 10] = [("cos x", g0), ("exp(-x)", g1), ("(x+2/x)/2", g2), ("1+sin(x)/2", g3), ("sqrt(x+1)", g4), ("1/(1+x)", g5), ("x/2+1", g6), ("ln(x+2)", g7), ("tanh(x)/2+0.3", g8), ("atan(x)+0.5", g9)];
+/// fixed point by bisection on g(x) - x in the harness (bracket [0, 3] contains exactly one for every map)
+fn fixed_point(i: usize) -> f64 {
+    let g = MAPS[i].1;
+    let (mut lo, mut hi) = (1e-3, 3.0);
+    for _ in 0..200 {
+        let mid = 0.5 * (lo + hi);
+        if (g(lo) - lo) * (g(mid) - mid) <= 0.0 { hi = mid } else { lo = mid }
+    }
+    CALLS.with(|c| c.set(0));
+    0.5 * (lo + hi)
+}
+#[derive(Serialize, Deserialize, Clone, Debug)]
+pub struct StefPt {
+    pub map: usize,
+    pub offset: f64,
+    pub tol: f64,
+}
+pub struct Steffensen;
+impl Check for Steffensen {
+    type P = StefPt;
+    fn name(&self) -> &'static str {
+        "steffensen"
+    }
+    fn rule(&self) -> String {
+        format!("contractions {:?} x start = fixed point + offset in {{-0.5,-0.1,0,0.1,0.5}} x tolerance 1e-4..1e-13 (plain fn items, calls counted through a thread-local); signature = (map, outcome, tolerance)", MAPS.iter().map(|m| m.0).collect::<Vec<_>>())
+    }
+    fn points(&self, t: Tier) -> Vec<StefPt> {
+        let mut v = vec![];
+        for map in 0..MAPS.len() {
+            for &offset in &[-0.5, -0.1, 0.0, 0.1, 0.5] {
+                for &tol in &t.pick(vec![1e-4, 1e-8, 1e-13], vec![1e-4, 1e-6, 1e-8, 1e-10, 1e-12, 1e-13]) {
+                    v.push(StefPt { map, offset, tol });
+                }
+            }
+        }
+        v
+    }
+    fn run(&self, p: &StefPt) -> Outcome {
+        let mut o = Outcome::new();
+        let fp = fixed_point(p.map);
+        let start = fp + p.offset;
+        CALLS.with(|c| c.set(0));
+        let res = vcore::guard(|| steffensen::<f64>(start, MAPS[p.map].1, p.tol, 100));
+        let calls = CALLS.with(|c| c.get());
+        let ctx = || format!("{:?} [{}] fixed point {} start {}", p, MAPS[p.map].0, fp, start);
+        let class = match res {
+            Err(m) if m == vcore::BUDGET => {
+                o.viol("roots::steffensen", "terminates", format!("{}: more than 100000 calls", ctx()));
+                "budget"
+            }
+            Err(m) => {
+                o.viol("roots::steffensen", "never-panics", format!("{}: {}", ctx(), m));
+                "panic"
+            }
+            Ok(Err(e)) => {
+                o.viol("roots::steffensen", "ok-on-a-contraction", format!("{}: Err({}) after {} calls", ctx(), e, calls));
+                "err"
+            }
+            Ok(Ok(x)) => {
+                let err = (x - fp).abs();
+                let bound = 8.0 * p.tol + 64.0 * EPS * fp.abs().max(1.0);
+                o.metric("steffensen-error/bound", err / bound);
+                if !(x.is_finite() && err <= bound) {
+                    o.viol("roots::steffensen", "returns-the-fixed-point", format!("{}: Ok({}) is {:e} away (bound {:e})", ctx(), x, err, bound));
+                }
+                "ok"
+            }
+        };
+        if calls > 2 * 100 + 2 {
+            o.viol("roots::steffensen", "does-not-loop-beyond-its-cap", format!("{}: {} calls", ctx(), calls));
+        }
+        o.sig = format!("{}|{}|{:e}|{}", MAPS[p.map].0, class, p.tol, if p.offset == 0.0 { "on-fixed-point" } else { "near" });
+        o
+    }
+}
+
+pub fn main(mut r: Report) -> ! {
+    r.assumptions = vec![
+        "accuracy bound 8 tol max(1,|r|) plus a conditioning floor (64-1024 eps x condition of the root)".into(),
+        "Ok is required only from starts inside the convergence region: distance <= 0.2 for c = 0.1, any start for affine systems; polynomial starts within 0.8 sep/(2 deg) of the root".into(),
+    ];
+    r.run(&Systems);
+    r.run(&PolyNewton);
+    r.run(&Steffensen);
+    r.finish()
+}
+#[allow(dead_code)]
+fn _u(_: Value) {}
